@@ -129,7 +129,7 @@ def run(ctx):
     for gname, cfg in groups:
         r = ctx.tlc('MC_YannyLayout.tla', cfg, dump=True, timeout=1500, label=cfg)
         complete = 0
-        for st in core.iter_states(r):
+        for st in core.iter_states(r, lazy=('text',), keep=lambda p: len(p['done']) == canon[p['id']][1]):
             cn, nitems = canon[st['id']]
             if len(st['done']) != nitems:
                 continue
@@ -156,7 +156,7 @@ def run(ctx):
     # documented limitation of pydl (known finding D-C02-3) cannot mask, or be masked by, anything else
     r = ctx.tlc('MC_YannyLayout.tla', 'MC_YannyLayout_hostile.cfg', dump=True, label='MC_YannyLayout_hostile.cfg')
     nh = 0
-    for st in core.iter_states(r):
+    for st in core.iter_states(r, lazy=('text',), keep=lambda p: len(p['done']) == canon[p['id']][1]):
         cn, nitems = canon[st['id']]
         if len(st['done']) != nitems:
             continue
